@@ -134,12 +134,14 @@ CHECKS = {
          "cannot fire (no_stop_before_peak), so the stop comes at N > |x| where the unsummed tail of the real series is at most |x| last terms (exp_tail_geom, from Mathlib's HasSum of the exponential series); "
          "the 5 guard digits absorb the factor 2|x|+3; the final with_prec(P), and for negative arguments the P-digit reciprocal, add at most 0.55 units. For |x| > 1000 the same bound holds under "
          "a decidable premise on the stop index N (101|x| <= 100(N+1): C13_accuracy_code), which the driver evaluates on every input (tag +stop-premise-fails). "
-         "The theorems are partial correctness (they speak about whatever is returned within the model's fuel; termination itself is observed per input: the model returning none is a mismatch). "
+         "Termination is a theorem too: C13_terminates - for |x| <= X the loop returns within 2X + 4(P+5) + 3 passes (once n >= 2|x| every term at least halves; 4(P+5)+2 halvings later two consecutive terms "
+         "are below half a grid step of the trimmed sum, and of three consecutive sums two trim to the same value - trim_two_of_three, also across a power of ten); C13_total_to_1000_code joins the two: "
+         "given between 4P + 2023 and 90000 passes, exp RETURNS a strictly positive result strictly less than one unit of its last digit from e^x. "
          "Correspondence: every result of the real code is compared exactly with the model and independently judged against a rational enclosure of e^x in outward-rounded interval arithmetic "
          "(strictly positive, configured digit count, within one unit of the last digit); ordered pairs check the two-ulp order property.",
          "The per-input oracle is itself verified: C13_enclosure_sound (the interval contains Real.exp x for every decimal argument and working precision) and C13_oracle_accepts_only_one_ulp. "
-         "Axioms of every theorem: propext, Classical.choice, Quot.sound only. Trusted: Lean kernel, Mathlib (Real.exp and its series), extractor, harness/driver; the fuel bound (<= 90000 iterations; the driver uses 20000; the real loop is unbounded).",
-         "Lean 4 proof (loop invariant + stopping rule + Taylor tail vs Mathlib Real.exp) + verified interval oracle per input + differential correspondence", "DESIGN.md §5 C13"),
+         "Axioms of every theorem: propext, Classical.choice, Quot.sound only. Trusted: Lean kernel, Mathlib (Real.exp and its series), extractor, harness/driver; the accuracy theorems bound the model's fuel by 90000 passes (the driver uses 20000, the real loop is unbounded; C13_terminates shows 4P + 2023 suffice for |x| <= 1000).",
+         "Lean 4 proof (loop invariant + stopping rule + Taylor tail vs Mathlib Real.exp + termination) + verified interval oracle per input + differential correspondence", "DESIGN.md §5 C13"),
  "C14": ("Kernel-checked Lean theorems: for ALL f32 and f64 bit patterns the model of try_parse_from_f32/f64 (normal path with trailing-zero reduction and powers of five, subnormal routines with the "
          "multi-limb constants regenerated from the source, +-0) denotes exactly the IEEE value (-1)^s m 2^e, NaN/inf give errors (C14_ofF32_exact, C14_ofF64_exact, C14_nan_inf); the limb constants "
          "equal 5^149 and 5^1074 (kernel evaluation). Correspondence: exact comparison on every exponent field and random patterns; bit-exact f -> decimal -> f64 round trip; to_f64 on arbitrary "
